@@ -371,20 +371,40 @@ def rule_r4(ctx):
               "the existence check covers a different list of paths than the one written", how="shared source list of relative paths")
     g = repo.func(f"{ED}:_check_no_existing_shard_files")
     raises = [n for n in own_nodes(g.node) if isinstance(n, ast.Raise)]
-    ok = len(raises) == 1 and isinstance(getattr(raises[0], "_parent", None), ast.If) and "os.path.exists" in text(g.node) \
-        and not any(isinstance(n, (ast.Try, ast.Return)) for n in own_nodes(g.node))
+    ok = len(raises) == 1 and "os.path.exists" in text(g.node) and not any(isinstance(n, ast.Try) for n in own_nodes(g.node))
     if ok:
-        iff = raises[0]._parent
         comp = [n for n in own_nodes(g.node) if isinstance(n, ast.ListComp)]
         ok = len(comp) == 1 and norm(comp[0].generators[0].iter) == g.params[0] and len(comp[0].generators[0].ifs) == 1
-        # the raise is guarded by the non-emptiness of the list of existing paths (the comprehension's result)
+        # the raise is reached exactly when the list of existing paths (the comprehension's result) is not empty: `if existing: raise`,
+        # or `if not existing: return` followed by the raise
         cpar = getattr(comp[0], "_parent", None) if comp else None
         ename = cpar.targets[0].id if isinstance(cpar, ast.Assign) and isinstance(cpar.targets[0], ast.Name) else None
-        t = iff.test
-        ok = ok and ename is not None and (
-            (isinstance(t, ast.Name) and t.id == ename)
-            or (isinstance(t, ast.Compare) and any(isinstance(x, ast.Name) and x.id == ename for x in ast.walk(t.left))
-                and isinstance(t.ops[0], (ast.Gt, ast.NotEq, ast.GtE))))
+
+        def nonempty_polarity(t):
+            """True: the test holds when the list is non-empty; False: when it is empty; None: something else."""
+            if isinstance(t, ast.UnaryOp) and isinstance(t.op, ast.Not):
+                r = nonempty_polarity(t.operand)
+                return None if r is None else not r
+            if isinstance(t, ast.Name) and t.id == ename:
+                return True
+            if isinstance(t, ast.Compare) and len(t.ops) == 1 and any(isinstance(x, ast.Name) and x.id == ename for x in ast.walk(t.left)) \
+                    and isinstance(t.comparators[0], ast.Constant) and t.comparators[0].value == 0:
+                return True if isinstance(t.ops[0], (ast.Gt, ast.NotEq, ast.GtE)) else (False if isinstance(t.ops[0], (ast.Eq, ast.LtE)) else None)
+            return None
+
+        par = getattr(raises[0], "_parent", None)
+        rets = [n for n in own_nodes(g.node) if isinstance(n, ast.Return)]
+        if isinstance(par, ast.If) and any(raises[0] is x for x in par.body):
+            ok = ok and ename is not None and nonempty_polarity(par.test) is True and not rets
+        elif isinstance(par, ast.If) and any(raises[0] is x for x in par.orelse):
+            ok = ok and ename is not None and nonempty_polarity(par.test) is False
+        elif par is g.node:
+            # unconditional raise at the end: every return before it sits under `if <list is empty>`
+            guards = [getattr(r, "_parent", None) for r in rets]
+            ok = ok and ename is not None and bool(rets) and all(isinstance(q, ast.If) and any(r is x for x in q.body) and nonempty_polarity(q.test) is False
+                                                                 for q, r in zip(guards, rets))
+        else:
+            ok = False
     ctx.check("R4", "_check_no_existing_shard_files rejects if any destination exists", ok, g, g.node,
               "the existence check does not reject on every existing destination", how="single raise guarded by the non-empty list of existing paths")
 
